@@ -21,9 +21,13 @@ def na(pid, reason):
 
 
 sys.path.insert(0, HERE)
-from tools.manifest_table import fill  # noqa: E402
+from tools.manifest_table import fill, ADDENDA  # noqa: E402
 
 fill(claim, na)
+for _pid, _extra in ADDENDA.items():
+    if _pid in CLAIMED:
+        _t = CLAIMED[_pid]
+        CLAIMED[_pid] = (_t[0], _t[1].rstrip() + " " + _extra, _t[2], _t[3])
 
 props = [json.loads(l)["id"] for l in open(os.path.join(HERE, "properties.jsonl"))]
 both = [p for p in props if p in CLAIMED and p in NOT_APPLICABLE]
